@@ -24,6 +24,7 @@ type SpecCtx struct {
 	vars   map[string]TV
 	at     *ssa.BasicBlock
 	atEnd  bool // names resolve at the end of block `at` (for edges) instead of its start
+	atIdx  int  // when > 0: names resolve just before instruction index atIdx of block `at`
 	phiSub map[ssa.Value]Value
 	pkg    *types.Package
 	lets   map[string]*Macro
@@ -491,7 +492,12 @@ func (c *SpecCtx) ssaName(name string) (TV, bool) {
 		return TV{}, false
 	}
 	scan := func(d *ssa.BasicBlock, phisOnly bool) (TV, bool) {
-		for i := len(d.Instrs) - 1; i >= 0; i-- {
+		start := len(d.Instrs) - 1
+		if d == b && c.atIdx > 0 {
+			start = c.atIdx - 1
+			phisOnly = false
+		}
+		for i := start; i >= 0; i-- {
 			switch x := d.Instrs[i].(type) {
 			case *ssa.Phi:
 				if x.Comment == name {
